@@ -1,12 +1,36 @@
 // Harness for the serverhostile domain (C11): hostile control connections against a real
 // gortsplib.Server running in a child process.
+//
+//   - ledger workers: grammar-level mutated scenarios, played sequentially with an OPTIONS probe after
+//     every step; the status / close / Session-header outcome of every step and the server's
+//     resource tables are compared with the extracted Coq model (ctx.Corr); after every scenario the
+//     server must return to its baseline (per-scenario leak attribution).
+//   - blast workers: byte-level mutated conversations, tunnel handshakes and truncations on many
+//     simultaneous connections; oracle: the child stays alive, every connection is answered or closed
+//     within the scaled timeouts, a fresh well-behaved gortsplib.Client then plays, and afterwards
+//     goroutines / tables / callbacks are back at the baseline.
 package main
 
 import (
+	"encoding/hex"
+	"encoding/json"
 	"fmt"
 	"os"
+	"os/exec"
+	"path/filepath"
+	"sort"
+	"strconv"
 	"strings"
+	"sync"
 	"time"
+
+	gortsplib "github.com/bluenviron/gortsplib/v5"
+	"github.com/bluenviron/gortsplib/v5/pkg/base"
+	"github.com/bluenviron/gortsplib/v5/pkg/description"
+	"github.com/bluenviron/gortsplib/v5/pkg/format"
+	"github.com/pion/rtp"
+
+	"verifharness/hx"
 )
 
 func rq(method, url string, hdrs ...string) []byte {
@@ -28,62 +52,777 @@ func rq(method, url string, hdrs ...string) []byte {
 	return []byte(sb.String())
 }
 
-const sdp2 = "v=0\r\no=- 0 0 IN IP4 127.0.0.1\r\ns=x\r\nc=IN IP4 0.0.0.0\r\nt=0 0\r\n" +
-	"m=video 0 RTP/AVP 96\r\na=rtpmap:96 H264/90000\r\na=fmtp:96 packetization-mode=1\r\na=control:trackID=0\r\n" +
-	"m=audio 0 RTP/AVP 97\r\na=rtpmap:97 opus/48000/2\r\na=control:trackID=1\r\n"
+// ---------- failures collected by workers (hx.Ctx is not goroutine-safe) ----------
 
-func probe() {
-	base := "rtsp://127.0.0.1/s"
-	convs := []conv{
-		{name: "ws-trailing", items: []item{{kind: itRawResp, data: []byte(wsHandshake + "X")}}},
-		{name: "record-port0", items: []item{
-			{kind: itReq, data: rq("ANNOUNCE", "rtsp://127.0.0.1/p", "CSeq: 1", "Content-Type: application/sdp", "\x00body:"+sdp2)},
-			{kind: itReq, data: rq("SETUP", "rtsp://127.0.0.1/p/trackID=0", "CSeq: 2", "Transport: RTP/AVP;unicast;client_port=0-1;mode=record")},
-			{kind: itReq, data: rq("SETUP", "rtsp://127.0.0.1/p/trackID=1", "CSeq: 3", "Transport: RTP/AVP;unicast;client_port=0-1;mode=record", "Session: $SESSION$")},
-			{kind: itReq, data: rq("RECORD", "rtsp://127.0.0.1/p", "CSeq: 4", "Session: $SESSION$")},
-		}},
-		{name: "play-ok", items: []item{
-			{kind: itReq, data: rq("OPTIONS", base, "CSeq: 1")},
-			{kind: itReq, data: rq("DESCRIBE", base, "CSeq: 2")},
-			{kind: itReq, data: rq("SETUP", base+"/trackID=0", "CSeq: 3", "Transport: RTP/AVP/TCP;unicast;interleaved=0-1")},
-			{kind: itReq, data: rq("PLAY", base, "CSeq: 4", "Session: $SESSION$")},
-			{kind: itSleep, n: 100},
-		}},
-		{name: "mcast", items: []item{
-			{kind: itReq, data: rq("SETUP", base+"/trackID=0", "CSeq: 3", "Transport: RTP/AVP;multicast")},
-			{kind: itReq, data: rq("PLAY", base, "CSeq: 4", "Session: $SESSION$")},
-			{kind: itSleep, n: 100},
-		}},
+type fail struct {
+	class, input, detail string
+}
+
+type corr struct {
+	caseLine, implLine string
+	tags               []string
+	desc               string
+}
+
+type workerOut struct {
+	corrs  []corr
+	fails  []fail
+	evals  int
+	kinds  map[string]int
+	extras map[string]any
+}
+
+func newOut() *workerOut { return &workerOut{kinds: map[string]int{}, extras: map[string]any{}} }
+
+func cfgJSON(c childCfg) string {
+	b, _ := json.Marshal(c)
+	return string(b)
+}
+
+// ---------- baseline comparison ----------
+
+func ledgerOf(st childStats) [7]int {
+	z := func(x int) int {
+		if x < 0 {
+			return 0
+		}
+		return x
 	}
-	for _, cv := range convs {
-		ch, err := startChild(childCfg{Handlers: "DASPRUGT", UDP: true, Mcast: true})
+	return [7]int{st.Conns, st.Sessions, st.Readers, st.Active, st.McastCount, z(st.UDPRTP), z(st.UDPRTCP)}
+}
+
+func ledgerLine(st childStats) string {
+	l := ledgerOf(st)
+	var o hx.L
+	o.N(9)
+	for _, x := range l {
+		o.I(x)
+	}
+	return o.String()
+}
+
+// diffBaseline describes how st differs from the baseline ("" = identical).
+func diffBaseline(base, st childStats) string {
+	var d []string
+	bl, sl := ledgerOf(base), ledgerOf(st)
+	names := []string{"conns", "sessions", "readers", "active", "mcast_count", "udp_rtp", "udp_rtcp"}
+	for i := range bl {
+		if bl[i] != sl[i] {
+			d = append(d, fmt.Sprintf("%s %d->%d", names[i], bl[i], sl[i]))
+		}
+	}
+	if st.HTTPRead != base.HTTPRead {
+		d = append(d, fmt.Sprintf("http_read %d->%d", base.HTTPRead, st.HTTPRead))
+	}
+	if st.McastWr != base.McastWr {
+		d = append(d, fmt.Sprintf("mcast_writers %d->%d", base.McastWr, st.McastWr))
+	}
+	keys := map[string]bool{}
+	for k := range base.Goroutines {
+		keys[k] = true
+	}
+	for k := range st.Goroutines {
+		keys[k] = true
+	}
+	var ks []string
+	for k := range keys {
+		ks = append(ks, k)
+	}
+	sort.Strings(ks)
+	for _, k := range ks {
+		if base.Goroutines[k] != st.Goroutines[k] {
+			d = append(d, fmt.Sprintf("goroutine[%s] %d->%d", k, base.Goroutines[k], st.Goroutines[k]))
+		}
+	}
+	if st.ConnOpen-base.ConnOpen != st.ConnClose-base.ConnClose {
+		d = append(d, fmt.Sprintf("OnConnOpen %d vs OnConnClose %d", st.ConnOpen-base.ConnOpen, st.ConnClose-base.ConnClose))
+	}
+	if st.SessOpen-base.SessOpen != st.SessClose-base.SessClose {
+		d = append(d, fmt.Sprintf("OnSessionOpen %d vs OnSessionClose %d", st.SessOpen-base.SessOpen, st.SessClose-base.SessClose))
+	}
+	if st.DupClose != base.DupClose {
+		d = append(d, fmt.Sprintf("unbalanced open/close callbacks on one object: %d", st.DupClose-base.DupClose))
+	}
+	return strings.Join(d, "; ")
+}
+
+// waitBaseline polls until the child is back at its baseline; returns the last difference.
+func waitBaseline(ch *child, base childStats, bound time.Duration) (string, error) {
+	deadline := time.Now().Add(bound)
+	sleep := 2 * time.Millisecond
+	for {
+		st, err := ch.counts()
 		if err != nil {
-			fmt.Println("start:", err)
-			return
+			return "", err
 		}
-		base0, _ := ch.stats()
-		r := runConv(ch.port, false, &cv, timing{resp: 5 * time.Second, close: 8 * time.Second})
-		fmt.Printf("%s: statuses=%v frames=%d closedBySrv=%v after=%v noAnswer=%v noClose=%v detail=%s\n", cv.name, r.statuses, r.frames, r.closedBySrv, r.closeAfter, r.noAnswer, r.noClose, r.detail)
-		time.Sleep(3 * time.Second)
-		if !ch.alive() {
-			fmt.Println("  CHILD DIED:", ch.exitErr, ch.panicSummary())
-			ch.cleanup()
-			continue
-		}
-		st, err := ch.stats()
-		fmt.Printf("  base: sessions=%d conns=%d numgo=%d ; now: sessions=%d conns=%d udp=%d/%d readers=%d active=%d numgo=%d err=%v opens=%d/%d closes=%d/%d\n",
-			base0.Sessions, base0.Conns, base0.NumGo, st.Sessions, st.Conns, st.UDPRTP, st.UDPRTCP, st.Readers, st.Active, st.NumGo, err, st.ConnOpen, st.SessOpen, st.ConnClose, st.SessClose)
-		for k, v := range st.Goroutines {
-			if base0.Goroutines[k] != v {
-				fmt.Printf("  goroutine diff: %s: %d -> %d\n", k, base0.Goroutines[k], v)
+		st.Goroutines = base.Goroutines
+		d := diffBaseline(base, st)
+		if d == "" {
+			// the tables are back: now compare the goroutine set too
+			st, err = ch.stats()
+			if err != nil {
+				return "", err
+			}
+			d = diffBaseline(base, st)
+			if d == "" {
+				return "", nil
 			}
 		}
-		s, err := ch.quit()
-		if len(s) > 200 {
-			s = s[:200]
+		if time.Now().After(deadline) {
+			return d, nil
 		}
-		fmt.Println("  quit:", s, err)
-		ch.cleanup()
+		time.Sleep(sleep)
+		if sleep < 100*time.Millisecond {
+			sleep *= 2
+		}
+	}
+}
+
+// settle waits until the server has as many connections as the harness still holds open and the
+// ledger has then been stable over several consecutive readings (closing a connection is
+// asynchronous on the server side: the peer sees EOF before the tables are updated).
+func settle(ch *child, expectConns int) (childStats, error) {
+	return settleN(ch, expectConns, 6)
+}
+
+func settleN(ch *child, expectConns int, need int) (childStats, error) {
+	prev, err := ch.counts()
+	if err != nil {
+		return prev, err
+	}
+	deadline := time.Now().Add(2 * time.Second)
+	for prev.Conns != expectConns && time.Now().Before(deadline) {
+		time.Sleep(2 * time.Millisecond)
+		if prev, err = ch.counts(); err != nil {
+			return prev, err
+		}
+	}
+	stable := 0
+	for i := 0; i < 200 && stable < need; i++ {
+		time.Sleep(4 * time.Millisecond)
+		cur, err := ch.counts()
+		if err != nil {
+			return cur, err
+		}
+		if ledgerOf(cur) == ledgerOf(prev) && cur.ConnClose == prev.ConnClose && cur.SessClose == prev.SessClose {
+			stable++
+		} else {
+			stable = 0
+		}
+		prev = cur
+	}
+	return prev, nil
+}
+
+// ---------- classification ----------
+
+func classifyPanic(summary string) string {
+	switch {
+	case strings.Contains(summary, "wsNetConn).Close"):
+		return "ws-upgrade-trailing-data-panic"
+	case strings.Contains(summary, "concurrent map"):
+		return "server-concurrent-map-access"
+	default:
+		return "server-panic"
+	}
+}
+
+func scenarioHasUDPStartFailure(sc *scenario) bool {
+	bad, rec := false, false
+	for _, s := range sc.steps {
+		if s.kind == 0 {
+			if s.req.udpBad {
+				bad = true
+			}
+			for _, t := range s.req.transport {
+				if strings.Contains(t, "client_port=0-1") || strings.Contains(t, "client_port=214748364") {
+					bad = true
+				}
+			}
+			if s.req.method == "RECORD" {
+				rec = true
+			}
+		}
+	}
+	return bad && rec
+}
+
+// ---------- ledger worker ----------
+
+func ledgerTimeouts(c childCfg) childCfg {
+	c.IdleMs, c.ReadMs, c.WriteMs, c.CheckMs = 8000, 8000, 2000, 200
+	return c
+}
+
+const stepBound = 6 * time.Second
+
+func describeScenario(cfg childCfg, seed uint64, idx int, sc *scenario) string {
+	var sb strings.Builder
+	fmt.Fprintf(&sb, "S %s %d %d :: %s ::", cfgJSON(cfg), seed, idx, sc.name)
+	for _, s := range sc.steps {
+		switch s.kind {
+		case 0:
+			r := s.req
+			fmt.Fprintf(&sb, " c%d:%s %s cseq=%d sess=%d tr=%q ct=%q body=%dB;", s.conn, r.method, r.url("H"), r.cseq, r.sess, r.transport, r.ctype, len(r.body))
+		case 1:
+			fmt.Fprintf(&sb, " c%d:frame(%d);", s.conn, s.ch)
+		case 2:
+			fmt.Fprintf(&sb, " c%d:response;", s.conn)
+		case 3:
+			fmt.Fprintf(&sb, " c%d:garbage(%dB);", s.conn, len(s.raw))
+		}
+	}
+	return sb.String()
+}
+
+// modelLine runs the extracted model (next to the harness binary) on one case line; "" if unavailable.
+func modelLine(caseLine string) string {
+	exe, err := os.Executable()
+	if err != nil {
+		return ""
+	}
+	mr := filepath.Join(filepath.Dir(exe), "modelrun")
+	if _, err = os.Stat(mr); err != nil {
+		return ""
+	}
+	cmd := exec.Command("bash", "-c", "ulimit -s unlimited 2>/dev/null; exec "+mr)
+	cmd.Stdin = strings.NewReader(caseLine + "\n")
+	b, err := cmd.Output()
+	if err != nil {
+		return ""
+	}
+	return strings.Join(strings.Fields(string(b)), " ")
+}
+
+// modelLines runs the extracted model on several case lines at once (one process).
+func modelLines(cases []string) []string {
+	if len(cases) == 0 {
+		return nil
+	}
+	exe, err := os.Executable()
+	if err != nil {
+		return nil
+	}
+	mr := filepath.Join(filepath.Dir(exe), "modelrun")
+	if _, err = os.Stat(mr); err != nil {
+		return nil
+	}
+	cmd := exec.Command("bash", "-c", "ulimit -s unlimited 2>/dev/null; exec "+mr)
+	cmd.Stdin = strings.NewReader(strings.Join(cases, "\n") + "\n")
+	b, err := cmd.Output()
+	if err != nil {
+		return nil
+	}
+	lines := strings.Split(strings.TrimRight(string(b), "\n"), "\n")
+	if len(lines) != len(cases) {
+		return nil
+	}
+	for i := range lines {
+		lines[i] = strings.Join(strings.Fields(lines[i]), " ")
+	}
+	return lines
+}
+
+// playScenario runs one scenario in ch and checks the return to the baseline. It returns false when
+// the child must be replaced (died or leaked); the second result is the index of the recorded
+// correspondence case in out.corrs (-1: none).
+func playScenario(ch *child, base childStats, cfg childCfg, seed uint64, idx int, sc *scenario, tags []string, keymgmt map[int]string, out *workerOut, replaceAt int) (bool, int) {
+	desc := describeScenario(cfg, seed, idx, sc)
+	var snapErr error
+	res := runScenario(ch.port, cfg, sc, stepBound, func(open int) string {
+		st, err := settle(ch, open)
+		if err != nil {
+			snapErr = err
+			return "9"
+		}
+		return ledgerLine(st)
+	}, func(open int) {
+		settleN(ch, open, 4) //nolint:errcheck
+	}, keymgmt)
+	defer func() {
+		for _, c := range res.conns {
+			if c != nil {
+				c.close()
+			}
+		}
+	}()
+	if !ch.alive() {
+		out.evals++
+		sum := ch.panicSummary()
+		out.fails = append(out.fails, fail{classifyPanic(sum), desc, "server process died during the scenario: " + sum})
+		return false, -1
+	}
+	if res.err == errTunnelRace {
+		out.kinds["http-tunnel-get-post-race"]++
+		return true, -1
+	}
+	if res.err != nil {
+		out.evals++
+		out.fails = append(out.fails, fail{"carrier-handshake-failed", desc, res.err.Error()})
+		return true, -1
+	}
+	if snapErr != nil {
+		out.fails = append(out.fails, fail{"child-control-failed", desc, snapErr.Error()})
+		return false, -1
+	}
+	at := replaceAt
+	if at >= 0 {
+		out.corrs[at] = corr{res.caseLine, res.implLine, tags, desc}
+	} else {
+		out.evals++
+		if res.noAnswer != "" {
+			out.fails = append(out.fails, fail{"request-neither-answered-nor-closed", desc, res.noAnswer})
+		}
+		out.corrs = append(out.corrs, corr{res.caseLine, res.implLine, tags, desc})
+		at = len(out.corrs) - 1
+	}
+	// cleanup: tear the sessions down (they may have outlived their connections), close everything
+	for _, sid := range res.sessions {
+		if nc, err := dial(ch.port, cfg.TLS); err == nil {
+			scheme := "rtsp"
+			if cfg.TLS {
+				scheme = "rtsps"
+			}
+			nc.SetDeadline(time.Now().Add(2 * time.Second))
+			nc.Write(rq("TEARDOWN", scheme+"://127.0.0.1/s", "CSeq: 1", "Session: "+sid))
+			buf := make([]byte, 512)
+			nc.Read(buf)
+			nc.Close()
+		}
+	}
+	for _, c := range res.conns {
+		c.close()
+	}
+	bound := 4 * time.Second
+	for _, car := range sc.carriers {
+		if car == carHTTP {
+			bound = 8 * time.Second // a GET channel whose POST never came is kept for 5 s
+		}
+	}
+	d, err := waitBaseline(ch, base, bound)
+	if err != nil || !ch.alive() {
+		sum := ch.panicSummary()
+		out.fails = append(out.fails, fail{classifyPanic(sum), desc, "server process died after the scenario: " + sum})
+		return false, at
+	}
+	if d != "" {
+		class := "resource-leak-after-hostile-connection"
+		if scenarioHasUDPStartFailure(sc) && strings.Contains(d, "sessions") {
+			class = "record-udp-start-failure-leaks-session"
+		}
+		if replaceAt < 0 {
+			out.fails = append(out.fails, fail{class, desc, "after the connections ended and the sessions were torn down the server did not return to its baseline: " + d})
+		}
+		return false, at
+	}
+	return true, at
+}
+
+func ledgerWorker(cfg childCfg, n int, seed uint64, only int) *workerOut {
+	out := newOut()
+	cfg = ledgerTimeouts(cfg)
+	rng := hx.NewRand(seed)
+	keymgmt := map[int]string{2: makeKeyMgmt(2), 3: makeKeyMgmt(3), 4: makeKeyMgmt(4)}
+	var ch *child
+	var base childStats
+	restart := func() bool {
+		if ch != nil {
+			ch.kill()
+			ch.cleanup()
+		}
+		var err error
+		ch, err = startChild(cfg)
+		if err != nil {
+			out.fails = append(out.fails, fail{"child-start-failed", cfgJSON(cfg), err.Error()})
+			ch = nil
+			return false
+		}
+		base, err = ch.stats()
+		if err != nil {
+			out.fails = append(out.fails, fail{"child-control-failed", cfgJSON(cfg), err.Error()})
+			return false
+		}
+		return true
+	}
+	if !restart() {
+		return out
+	}
+	udpPort := 30000 + 2*int(seed%5000)
+	type played struct {
+		sc   scenario
+		tags []string
+		idx  int
+		at   int
+	}
+	var all []played
+	for i := 0; i < n; i++ {
+		sc, tags := genScenario(rng, cfg, &udpPort, i)
+		if only >= 0 && i != only {
+			continue
+		}
+		for _, t := range tags {
+			out.kinds["mut:"+t]++
+		}
+		ok, at := playScenario(ch, base, cfg, seed, i, &sc, tags, keymgmt, out, -1)
+		if at >= 0 {
+			all = append(all, played{sc, tags, i, at})
+		}
+		if !ok {
+			if !restart() {
+				return out
+			}
+		}
+	}
+	// The steps of a scenario are meant to be sequentially consistent, but the server tears connections
+	// and sessions down asynchronously. A scenario whose outcome differs from the model's is therefore
+	// played again (up to twice) and its last outcome is what gets recorded: a timing artefact
+	// disappears, a genuine divergence stays.
+	for attempt := 0; attempt < 2; attempt++ {
+		cases := make([]string, len(all))
+		for i, p := range all {
+			cases[i] = out.corrs[p.at].caseLine
+		}
+		ml := modelLines(cases)
+		if ml == nil {
+			break
+		}
+		var again []played
+		for i, p := range all {
+			if ml[i] != strings.Join(strings.Fields(out.corrs[p.at].implLine), " ") {
+				again = append(again, p)
+			}
+		}
+		if len(again) == 0 {
+			break
+		}
+		for _, p := range again {
+			out.kinds["replayed-after-disagreement"]++
+			ok, _ := playScenario(ch, base, cfg, seed, p.idx, &p.sc, p.tags, keymgmt, out, p.at)
+			if !ok {
+				if !restart() {
+					return out
+				}
+			}
+		}
+		all = again
+	}
+	// the end: the server closes cleanly
+	if s, err := ch.quit(); err != nil || !strings.HasPrefix(s, "CLOSED") {
+		out.fails = append(out.fails, fail{"server-close-hang", cfgJSON(cfg), fmt.Sprintf("Server.Close after the scenarios: %q %v %s", s, err, ch.panicSummary())})
+	}
+	ch.cleanup()
+	return out
+}
+
+// ---------- well-behaved client ----------
+
+// goodClient plays /s over TCP with the real gortsplib.Client and returns the packets received.
+func goodClient(port int, useTLS bool, d time.Duration) (int, error) {
+	scheme := "rtsp"
+	if useTLS {
+		scheme = "rtsps"
+	}
+	u, err := base.ParseURL(fmt.Sprintf("%s://127.0.0.1:%d/s", scheme, port))
+	if err != nil {
+		return 0, err
+	}
+	tcp := gortsplib.ProtocolTCP
+	c := &gortsplib.Client{Scheme: u.Scheme, Host: u.Host, Protocol: &tcp, ReadTimeout: 5 * time.Second, WriteTimeout: 5 * time.Second}
+	if useTLS {
+		c.TLSConfig = insecureTLS()
+	}
+	if err = c.Start(); err != nil {
+		return 0, err
+	}
+	defer c.Close()
+	desc, _, err := c.Describe(u)
+	if err != nil {
+		return 0, fmt.Errorf("DESCRIBE: %w", err)
+	}
+	if err = c.SetupAll(desc.BaseURL, desc.Medias); err != nil {
+		return 0, fmt.Errorf("SETUP: %w", err)
+	}
+	var mu sync.Mutex
+	got := 0
+	c.OnPacketRTPAny(func(_ *description.Media, _ format.Format, _ *rtp.Packet) {
+		mu.Lock()
+		got++
+		mu.Unlock()
+	})
+	if _, err = c.Play(nil); err != nil {
+		return 0, fmt.Errorf("PLAY: %w", err)
+	}
+	deadline := time.Now().Add(d)
+	for time.Now().Before(deadline) {
+		mu.Lock()
+		g := got
+		mu.Unlock()
+		if g >= 10 {
+			break
+		}
+		time.Sleep(10 * time.Millisecond)
+	}
+	mu.Lock()
+	defer mu.Unlock()
+	return got, nil
+}
+
+// ---------- blast worker ----------
+
+func blastTimeouts(c childCfg) childCfg {
+	c.IdleMs, c.ReadMs, c.WriteMs, c.CheckMs = 1500, 1000, 1000, 200
+	return c
+}
+
+func describeConv(cfg childCfg, cv *conv) string {
+	var sb strings.Builder
+	fmt.Fprintf(&sb, "B %s %d %d", cfgJSON(cfg), cv.carrier, cv.end)
+	for _, it := range cv.items {
+		fmt.Fprintf(&sb, " %d:%d:%s", it.kind, it.n, hex.EncodeToString(it.data))
+	}
+	return sb.String()
+}
+
+func parseConv(line string) (childCfg, *conv, error) {
+	f := strings.Fields(line)
+	var cfg childCfg
+	if len(f) < 4 || f[0] != "B" {
+		return cfg, nil, fmt.Errorf("not a B line")
+	}
+	if err := json.Unmarshal([]byte(f[1]), &cfg); err != nil {
+		return cfg, nil, err
+	}
+	cv := &conv{name: "replay"}
+	cv.carrier, _ = strconv.Atoi(f[2])
+	cv.end, _ = strconv.Atoi(f[3])
+	for _, x := range f[4:] {
+		p := strings.SplitN(x, ":", 3)
+		if len(p) != 3 {
+			return cfg, nil, fmt.Errorf("bad item %q", x)
+		}
+		k, _ := strconv.Atoi(p[0])
+		n, _ := strconv.Atoi(p[1])
+		d, err := hex.DecodeString(p[2])
+		if err != nil {
+			return cfg, nil, err
+		}
+		cv.items = append(cv.items, item{kind: k, n: n, data: d})
+	}
+	return cfg, cv, nil
+}
+
+func blastTiming(cfg childCfg) timing {
+	closeBound := time.Duration(max(cfg.IdleMs, cfg.ReadMs)+cfg.CheckMs)*time.Millisecond + 7*time.Second
+	return timing{resp: 6 * time.Second, close: closeBound}
+}
+
+// judgeConv evaluates the per-connection oracle.
+func judgeConv(cfg childCfg, cv *conv, r convResult, out *workerOut) {
+	desc := describeConv(cfg, cv)
+	if r.dialErr != nil {
+		out.fails = append(out.fails, fail{"server-refuses-connections", desc, r.dialErr.Error()})
+		return
+	}
+	if r.noAnswer {
+		out.fails = append(out.fails, fail{"request-neither-answered-nor-closed", desc,
+			fmt.Sprintf("%s: a complete request got no response and the connection stayed open for %v (statuses %v)", cv.name, blastTiming(cfg).resp, r.statuses)})
+	}
+	if r.noClose {
+		class := "silent-connection-not-closed"
+		if beforeFirstRequest(cv) {
+			class = "no-read-deadline-before-first-request"
+		}
+		out.fails = append(out.fails, fail{class, desc,
+			fmt.Sprintf("%s: the server did not close a silent connection within %v (statuses %v)", cv.name, blastTiming(cfg).close, r.statuses)})
+	}
+}
+
+// beforeFirstRequest: the connection never got past handleTunneling (fewer than 4 bytes, or an
+// unfinished HTTP request).
+func beforeFirstRequest(cv *conv) bool {
+	if cv.carrier != carPlain {
+		return false
+	}
+	var all []byte
+	for _, it := range cv.items {
+		if it.kind != itSleep {
+			all = append(all, it.data...)
+		}
+	}
+	if len(all) < 4 {
+		return true
+	}
+	if (strings.HasPrefix(string(all), "GET ") || strings.HasPrefix(string(all), "POST")) && !strings.Contains(string(all), "\r\n\r\n") {
+		return true
+	}
+	return false
+}
+
+// runBlast runs conversations concurrently against ch; returns false if the child died.
+func runBlast(ch *child, cfg childCfg, convs []*conv, par int, out *workerOut) bool {
+	tm := blastTiming(cfg)
+	results := make([]convResult, len(convs))
+	var wg sync.WaitGroup
+	sem := make(chan struct{}, par)
+	for i := range convs {
+		wg.Add(1)
+		sem <- struct{}{}
+		go func(i int) {
+			defer wg.Done()
+			defer func() { <-sem }()
+			if !ch.alive() {
+				results[i].dialErr = fmt.Errorf("child dead")
+				return
+			}
+			results[i] = runConv(ch.port, cfg.TLS, convs[i], tm)
+		}(i)
+	}
+	wg.Wait()
+	if !ch.alive() {
+		return false
+	}
+	for i := range convs {
+		out.evals++
+		judgeConv(cfg, convs[i], results[i], out)
+	}
+	return true
+}
+
+// isolate re-runs conversations one by one in fresh children to find which of them kills or leaks.
+func isolate(cfg childCfg, convs []*conv, what string, out *workerOut) {
+	type verdict struct {
+		class, detail string
+	}
+	verdicts := make([]verdict, len(convs))
+	var wg sync.WaitGroup
+	sem := make(chan struct{}, 6)
+	for i := range convs {
+		wg.Add(1)
+		sem <- struct{}{}
+		go func(i int) {
+			defer wg.Done()
+			defer func() { <-sem }()
+			ch, err := startChild(cfg)
+			if err != nil {
+				return
+			}
+			defer ch.cleanup()
+			defer ch.kill()
+			base, err := ch.stats()
+			if err != nil {
+				return
+			}
+			runConv(ch.port, cfg.TLS, convs[i], blastTiming(cfg))
+			time.Sleep(50 * time.Millisecond)
+			if !ch.alive() {
+				sum := ch.panicSummary()
+				verdicts[i] = verdict{classifyPanic(sum), "server process died: " + sum}
+				return
+			}
+			d, err := waitBaseline(ch, base, blastTiming(cfg).close)
+			if err != nil || !ch.alive() {
+				sum := ch.panicSummary()
+				verdicts[i] = verdict{classifyPanic(sum), "server process died: " + sum}
+				return
+			}
+			if d != "" {
+				verdicts[i] = verdict{"resource-leak-after-hostile-connection", "after the connection ended the server did not return to its baseline: " + d}
+			}
+		}(i)
+	}
+	wg.Wait()
+	found := false
+	for i, v := range verdicts {
+		if v.class != "" {
+			found = true
+			out.fails = append(out.fails, fail{v.class, describeConv(cfg, convs[i]), convs[i].name + ": " + v.detail})
+		}
+	}
+	if !found {
+		out.fails = append(out.fails, fail{what + "-only-under-concurrency", cfgJSON(cfg),
+			fmt.Sprintf("%s in a batch of %d simultaneous conversations; no single conversation reproduces it", what, len(convs))})
+	}
+}
+
+func blastWorker(cfg childCfg, convs []*conv, par int) *workerOut {
+	out := newOut()
+	cfg = blastTimeouts(cfg)
+	ch, err := startChild(cfg)
+	if err != nil {
+		out.fails = append(out.fails, fail{"child-start-failed", cfgJSON(cfg), err.Error()})
+		return out
+	}
+	defer ch.cleanup()
+	base, err := ch.stats()
+	if err != nil {
+		out.fails = append(out.fails, fail{"child-control-failed", cfgJSON(cfg), err.Error()})
+		ch.kill()
+		return out
+	}
+	for _, cv := range convs {
+		out.kinds["blast:"+strings.SplitN(cv.name, "#", 2)[0]]++
+	}
+	if !runBlast(ch, cfg, convs, par, out) {
+		sum := ch.panicSummary()
+		out.extras["blast_died"] = sum
+		isolate(cfg, convs, "server process died ("+classifyPanic(sum)+")", out)
+		return out
+	}
+	// the server still serves a well-behaved client
+	canPlay := strings.Contains(cfg.Handlers, "D") && strings.Contains(cfg.Handlers, "S") && strings.Contains(cfg.Handlers, "P")
+	if canPlay {
+		got, err := goodClient(ch.port, cfg.TLS, 5*time.Second)
+		out.evals++
+		if err != nil || got < 10 {
+			out.fails = append(out.fails, fail{"good-client-not-served-after-hostile-connections", cfgJSON(cfg),
+				fmt.Sprintf("after %d hostile conversations a gortsplib.Client got %d packets, err=%v", len(convs), got, err)})
+		}
+	}
+	if !ch.alive() {
+		sum := ch.panicSummary()
+		isolate(cfg, convs, "server process died ("+classifyPanic(sum)+")", out)
+		return out
+	}
+	d, err := waitBaseline(ch, base, blastTiming(cfg).close)
+	if err != nil || !ch.alive() {
+		sum := ch.panicSummary()
+		isolate(cfg, convs, "server process died ("+classifyPanic(sum)+")", out)
+		return out
+	}
+	if d != "" {
+		out.extras["blast_leak"] = d
+		ch.kill()
+		isolate(cfg, convs, "resource leak ("+d+")", out)
+		return out
+	}
+	if s, err := ch.quit(); err != nil || !strings.HasPrefix(s, "CLOSED") {
+		out.fails = append(out.fails, fail{"server-close-hang", cfgJSON(cfg), fmt.Sprintf("Server.Close after the blast: %q %v %s", s, err, ch.panicSummary())})
+	}
+	return out
+}
+
+// ---------- main ----------
+
+var scenLog *os.File
+
+func record(ctx *hx.Ctx, out *workerOut) {
+	for _, c := range out.corrs {
+		idx := ctx.Corr(c.caseLine, c.implLine)
+		if scenLog != nil {
+			fmt.Fprintf(scenLog, "%d\t%s\n", idx, c.desc)
+		}
+		ctx.Nontrivial(c.caseLine)
+	}
+	for i := 0; i < out.evals; i++ {
+		ctx.Eval()
+	}
+	for k, v := range out.kinds {
+		for i := 0; i < v; i++ {
+			ctx.Kind(k)
+		}
+	}
+	for _, f := range out.fails {
+		ctx.Failf(-1, f.class, f.input, "%s", f.detail)
 	}
 }
 
@@ -92,10 +831,120 @@ func main() {
 		childMain(cfg)
 		return
 	}
-	if len(os.Args) > 1 && os.Args[1] == "probe" {
-		probe()
+	if len(os.Args) > 1 && os.Args[1] == "debug" {
+		debugMain()
 		return
+	}
+	ctx := hx.Start("serverhostile")
+	defer ctx.Finish()
+	scenLog, _ = os.Create(ctx.Out + "/scenarios.txt")
+	defer scenLog.Close()
+	ctx.Rule("ledger scenarios: valid RTSP conversations (play TCP/UDP/multicast, record TCP/UDP; plain, WebSocket and HTTP-tunnel carriers; 1-2 connections) mutated at grammar level (steps dropped/duplicated/swapped/spliced/truncated, frames / responses / garbage injected, header fields deleted / duplicated / randomised, Transport lists, SDP bodies, URLs, Session references) and played step by step with a probe after each step; non-trivial = distinct parsed-request case line. blast: byte-level mutations (truncation at sampled or every offset, flips, insertions, splices), tunnel handshakes and frames on up to 48 simultaneous connections; every server configuration = handler subset x UDP x multicast (x TLS in the thorough tier)")
+
+	if lines := ctx.ReplayLines(); lines != nil {
+		for _, l := range lines {
+			switch {
+			case strings.HasPrefix(l, "S "):
+				f := strings.Fields(l)
+				var cfg childCfg
+				if len(f) < 4 || json.Unmarshal([]byte(f[1]), &cfg) != nil {
+					continue
+				}
+				seed, _ := strconv.ParseUint(f[2], 10, 64)
+				idx, _ := strconv.Atoi(f[3])
+				record(ctx, ledgerWorker(cfg, idx+1, seed, idx))
+			case strings.HasPrefix(l, "B "):
+				cfg, cv, err := parseConv(l)
+				if err != nil {
+					continue
+				}
+				out := newOut()
+				isolate(blastTimeouts(cfg), []*conv{cv}, "replay", out)
+				// "only under concurrency" is the isolate verdict for a conversation that does nothing wrong alone
+				var keep []fail
+				for _, f := range out.fails {
+					if !strings.HasSuffix(f.class, "-only-under-concurrency") {
+						keep = append(keep, f)
+					}
+				}
+				out.fails = keep
+				out.evals++
+				record(ctx, out)
+			}
+		}
+		return
+	}
+
+	configs := quickConfigs()
+	if ctx.Thorough {
+		configs = thoroughConfigs()
+	}
+
+	// 1. corpus: the known findings, each alone in a fresh child (deterministic)
+	t0 := time.Now()
+	record(ctx, runCorpus())
+	ctx.Extra("corpus_wall_s", time.Since(t0).Seconds())
+
+	// 2. ledger + blast workers, one pair per configuration, in parallel
+	nScen := ctx.Budget(140, 4000)
+	type job struct {
+		out *workerOut
+	}
+	var wg sync.WaitGroup
+	outs := make([]*workerOut, 2*len(configs))
+	for i, cfg := range configs {
+		ls := ctx.Rng.U64()
+		bs := ctx.Rng.U64()
+		wg.Add(2)
+		go func(i int, cfg childCfg) {
+			defer wg.Done()
+			t0 := time.Now()
+			outs[2*i] = ledgerWorker(cfg, nScen, ls, -1)
+			outs[2*i].extras["wall_s"] = time.Since(t0).Seconds()
+		}(i, cfg)
+		go func(i int, cfg childCfg) {
+			defer wg.Done()
+			t0 := time.Now()
+			convs := genBlast(hx.NewRand(bs), cfg, ctx.Thorough)
+			outs[2*i+1] = blastWorker(cfg, convs, 48)
+			outs[2*i+1].extras["wall_s"] = time.Since(t0).Seconds()
+			outs[2*i+1].extras["conversations"] = len(convs)
+		}(i, cfg)
+	}
+	wg.Wait()
+	for i, o := range outs {
+		record(ctx, o)
+		kind := "ledger"
+		if i%2 == 1 {
+			kind = "blast"
+		}
+		ctx.Extra(fmt.Sprintf("%s[%s]", kind, configs[i/2].String()), o.extras)
+	}
+	ctx.Extra("configurations", len(configs))
+}
+
+func quickConfigs() []childCfg {
+	return []childCfg{
+		{Handlers: "DASPRUGT", UDP: true, Mcast: true},
+		{Handlers: "DASPRUGT", UDP: false},
+		{Handlers: "DSPUG", UDP: true},
+		{Handlers: "ASRU", UDP: true},
+		{Handlers: "DAPR", UDP: false},
+		{Handlers: "", UDP: false},
 	}
 }
 
-type absReq struct{}
+func thoroughConfigs() []childCfg {
+	var out []childCfg
+	for _, h := range handlerSubsets {
+		for _, udp := range []bool{true, false} {
+			out = append(out, childCfg{Handlers: h, UDP: udp, Mcast: udp && (h == "DASPRUGT" || h == "DSPUG")})
+		}
+	}
+	for _, h := range []string{"DASPRUGT", "DSPUG", "ASRU"} {
+		for _, udp := range []bool{true, false} {
+			out = append(out, childCfg{Handlers: h, UDP: udp, TLS: true})
+		}
+	}
+	return out
+}
